@@ -1,7 +1,9 @@
 //! C10 — a graph is bound to its init command.
 //! All first-command shapes (well-formed, policy-less, foreign id, parented, empty batch, rejecting
 //! init) and init-like commands (the graph's own init again, a foreign parentless command) at
-//! every later batch position; observes `InitError`, `get_storage`, `list_graph_ids`.
+//! every later batch position; graphs created by a `new_graph` action publishing the init command
+//! plus 0–3 more commands (shapes 6/7), and every stored graph synced to a second replica;
+//! observes `InitError`, `get_storage`, `list_graph_ids`, the returned `GraphId`.
 
 #[path = "../tk.rs"]
 mod tk;
@@ -26,7 +28,7 @@ fn main() {
         commit_pct: 25,
         dup_pct: 10,
         noncausal_pct: *rng.pick(&[0, 10]),
-        init_shape: *rng.pick(&[0, 0, 0, 1, 2, 3, 4, 5]),
+        init_shape: *rng.pick(&[0, 0, 1, 2, 3, 4, 5, 6, 6, 6, 7]),
         foreign_pct: *rng.pick(&[10, 25]),
         tips_pct: 10,
         ..tk::Profile::default()
